@@ -29,7 +29,12 @@
 (*                         "small"     <= tol                       (absolute)         *)
 (*                         "rel_small" > tol but <= tol * |last|    (needs |last| > 1)  *)
 (*                         "large"     > tol and > tol * |last|                        *)
+(*   stays (BOOLEAN): where both values are near zero and the drift is large, whether   *)
+(*                    the NEXT value (one more period) is still below Z; TRUE elsewhere  *)
 (* The classes are the truth about the real numbers; JudgeBad is the code's test.      *)
+(* Abstraction: the drift class of a series persists for one more period (its          *)
+(* dynamics do not jump classes), except that a near-zero value may leave the band     *)
+(* |x| < Z - that is what `stays` records.                                             *)
 (* The operators JudgeBad / SteadyClass and the actions are the single source of truth *)
 (* for Steady_Trace.                                                                   *)
 EXTENDS Integers, Sequences, FiniteSets, TLC
@@ -39,9 +44,13 @@ CONSTANTS
     Grid,            \* sequence: Grid[i] = set of classes series i may end in
     MaxExcluded,     \* bound on the size of the excluded set
     AllowMalformed,  \* BOOLEAN: also systems that are not well formed (Run may fail with any exception)
-    AsFound_SignedRelativeTest
+    AsFound_SignedRelativeTest,
                      \* TRUE: the pinned code: err = abs(lastval-prev)/lastval (signed), so a negative
                      \*       value always passes the relative test.  FALSE: divides by the magnitude.
+    AsFound_NearZeroBandIgnoresDrift
+                     \* TRUE: the code: with |last| < Z and |last-prev| > tol the series is accepted as soon
+                     \*       as |prev| < Z too, however fast it moves.  FALSE: it is bad (for |last| < Z and
+                     \*       |last-prev| > tol the relative error exceeds 1e-2 >= tol anyway).
 
 Mags   == {"nL", "ne", "z", "pe", "pL"}
 Drifts == {"zero", "small", "rel_small", "large"}
@@ -50,16 +59,18 @@ NearZero(m) == m \in {"ne", "z", "pe"}
 IsLarge(m)  == m \in {"nL", "pL"}
 
 (* which (prev, last, drift) triples exist at all *)
+BandCase(c) == NearZero(c.prev) /\ NearZero(c.last) /\ c.drift = "large"
 ClassOK(c) ==
+    /\ ~BandCase(c) => c.stays
     /\ c.drift = "zero" => c.prev = c.last
     /\ (c.prev = "z" /\ c.last = "z") => c.drift = "zero"
     /\ c.drift = "rel_small" => (IsLarge(c.last) /\ c.prev = c.last)
-AllClasses == { c \in [prev : Mags, last : Mags, drift : Drifts] : ClassOK(c) }
+AllClasses == { c \in [prev : Mags, last : Mags, drift : Drifts, stays : BOOLEAN] : ClassOK(c) }
 
 ----------------------------------------------------------------------------
 (* The acceptance test, in the order of the code:                                     *)
 (*   if abs(lastval-prev) > tol:                                                      *)
-(*       if abs(lastval) < 1e-4:   bad iff not abs(prev) < 1e-4                       *)
+(*       if abs(lastval) < 1e-4:   bad iff not abs(prev) < 1e-4      (as found)        *)
 (*       else:                     bad iff abs(lastval-prev)/abs(lastval) > tol       *)
 AbsDiffExceedsTol(c) == c.drift \in {"rel_small", "large"}
 
@@ -70,12 +81,14 @@ RelErrExceedsTol(c) ==
 
 JudgeBad(c) ==
     /\ AbsDiffExceedsTol(c)
-    /\ IF NearZero(c.last) THEN ~NearZero(c.prev) ELSE RelErrExceedsTol(c)
+    /\ IF NearZero(c.last)
+       THEN (IF AsFound_NearZeroBandIgnoresDrift THEN ~NearZero(c.prev) ELSE TRUE)
+       ELSE RelErrExceedsTol(c)
 
-(* what C15 calls steady, on the final two values *)
+(* what C15 calls steady, on the final two values (and, inside the near-zero band, the next one) *)
 SteadyClass(c) ==
     \/ c.drift \in {"zero", "small"}                    \* |last - prev| <= tol
-    \/ (NearZero(c.prev) /\ NearZero(c.last))           \* both below the near-zero threshold
+    \/ (NearZero(c.prev) /\ NearZero(c.last) /\ c.stays) \* below the near-zero threshold, and staying there
     \/ c.drift = "rel_small"                            \* |last - prev| <= tol * |last|
 
 ----------------------------------------------------------------------------
